@@ -676,7 +676,7 @@ let gen_varand seed count lo hi =
   seed_rng seed;
   for h = 1 to count do
     let g = { nextv = 100 } in
-    let pages = pick [1; 1; 2] in
+    let pages = (match h with 3 -> 3 | 4 -> 2 | _ -> pick [1; 1; 2; 3]) in
     let len = 4096 * pages in
     let st = pick [2; 3; 3] in
     let ctor = pick ["from"; "zeroed"] in
@@ -688,7 +688,8 @@ let gen_varand seed count lo hi =
     | Some s0 ->
       let s = ref s0 in
       let emit t = print_endline t; s := fst (astep !s (parse_aop !s t)) in
-      let near = len - 1 - rnd 12 in
+      let boundary = (match h with 3 -> 4096 * (1 + rnd 2) | 4 -> 4096 | _ -> if pages > 1 && chance 40 then 4096 * (1 + rnd (pages - 1)) else len) in
+      let near = boundary - 1 - rnd 12 in
       emit (Printf.sprintf "adv P %d" near);
       if st = 3 then emit (Printf.sprintf "adv W %d" near);
       emit (Printf.sprintf "adv C %d" near);
@@ -707,6 +708,8 @@ let gen_vrand seed count lo hi =
                             | 5 -> Some (false, "default") | 6 -> Some (false, "from") | _ -> None in
     let owned = (match forced with Some (o, _) -> let _ = chance 30 in o | None -> chance 30) in
     let pages = pick [1; 1; 2; 3] in
+    (* histories 7-9 of every run: 3 and 2 pages, iterators placed next to an INTERNAL page boundary (index arithmetic at 4096, 8192) *)
+    let pages = (match h with 7 | 8 -> 3 | 9 -> 2 | _ -> pages) in
     let len = 4096 * pages in
     let kind = pick ["conc"; "local"] and st = pick [2; 3; 3] in
     let item = if owned then pick ["owned"; "owned24"; "owned4"] else "plain" in
@@ -722,8 +725,9 @@ let gen_vrand seed count lo hi =
     | Some s0 ->
       let s = ref s0.base in
       let emit t = print_endline t; let (s', _) = step !s (parse_op t) in s := s' in
-      (* go next to the seam: leave 1..12 slots before the physical end *)
-      let near = len - 1 - rnd 12 in
+      (* go next to the seam: leave 1..12 slots before the physical end - or, on a buffer of several pages, before an internal page boundary *)
+      let boundary = (match h with 7 -> 4096 | 8 -> 8192 | 9 -> 4096 | _ -> if pages > 1 && chance 40 then 4096 * (1 + rnd (pages - 1)) else len) in
+      let near = boundary - 1 - rnd 12 in
       if owned then begin
         (* owned items: fill by slices of clones so that what is published is occupied (K3), then consume *)
         let rec fill k = if k > 0 then (let n = min k 900 in emit ("pushcloneinit " ^ csv (fresh_vals g n)); if st = 3 then emit (Printf.sprintf "adv W %d" n);
